@@ -2,7 +2,7 @@
 from ..runner import Result
 from . import common
 
-PROFILE = {'name': 'c11', 'max_clients': 6, 'hostile_masks': False, 'final_die': True, 'cfg_variants': [{}, {}, {'default_modes': 'O'}, {'default_modes': 'w'}, {'default_modes': 'iw'}, {'default_modes': 'o'}], 'weights': {'connect': 6, 'end': 2, 'quit': 1, 'join': 5, 'part': 4, 'kick': 3, 'topic': 2, 'invite': 2, 'cmode': 2, 'umode': 22, 'nick': 8, 'privmsg': 1, 'notice': 2, 'away': 1, 'oper': 16, 'kill': 5, 'wallops': 10, 'stats': 6, 'die': 4, 'squit': 4, 'names': 1, 'who': 1, 'whois': 4, 'list': 0.5, 'lusers': 0.5, 'ison': 0.3, 'userhost': 4, 'whowas': 0.3, 'chanlist': 0.5, 'cquery': 0.5}, 'nicks': ['al', 'bo', 'cy', 'root', 'adm', 'far', 'di', 'Al', 'Root']}
+PROFILE = {'name': 'c11', 'max_clients': 6, 'hostile_masks': False, 'final_die': True, 'cfg_variants': [{}, {'reg_users': ['cy', 'rt']}, {'default_modes': 'O'}, {'default_modes': 'r', 'reg_users': ['al']}, {'default_modes': 'w'}, {'default_modes': 'iw'}, {'default_modes': 'o'}], 'weights': {'connect': 6, 'end': 2, 'quit': 1, 'join': 5, 'part': 4, 'kick': 3, 'topic': 2, 'invite': 2, 'cmode': 2, 'umode': 22, 'nick': 8, 'privmsg': 1, 'notice': 2, 'away': 1, 'oper': 16, 'kill': 5, 'wallops': 10, 'stats': 6, 'die': 4, 'squit': 4, 'names': 1, 'who': 1, 'whois': 4, 'list': 0.5, 'lusers': 0.5, 'ison': 0.3, 'userhost': 4, 'whowas': 0.3, 'chanlist': 0.5, 'cquery': 0.5}, 'nicks': ['al', 'bo', 'cy', 'root', 'adm', 'far', 'di', 'Al', 'Root']}
 
 
 def run(ctx):
